@@ -249,7 +249,7 @@ class Cfg:
             T.append(";".join(["S", s["name"], str(s["type"]), hexs(s["secret"]), str(s["rc"]), str(s["ri"]), str(s["ss"]), str(s["addttl"]),
                                s["rwin"] or ".", s["rwout"] or ".", str(s["loopprev"]), str(int(s["reqma"]))]))
         for r in self.realms:
-            T.append(";".join(["R", hexs(realm_pattern(r["name"])), ",".join(r["srv"]) if r["srv"] else ".",
+            T.append(";".join(["R", hexs(r["name"]), ",".join(r["srv"]) if r["srv"] else ".",
                                ",".join(r["acc"]) if r["acc"] else ".", "." if r["msg"] is None else hexs(r["msg"]), str(int(r["accresp"]))]))
         return T
 
